@@ -273,6 +273,23 @@ theorem writeBlock_fresh (s : St) (hc bc : Cuts) (hok : AllOk hc ∧ AllOk bc) (
   · show (emit (emit s hdr hc).1 (enc s.cur) bc).1.bw + 1 = 1
     rw [fr.2.1, hbw]
 
+/-- on an output whose failure was already reported `write_block()` is silent (its data is dropped) -/
+theorem writeBlock_failed (s : St) (hc bc : Cuts) (hf : s.w.failed = true) :
+    (writeBlock hdr enc s hc bc).2 = false ∧ (writeBlock hdr enc s hc bc).1.w.failed = true := by
+  unfold writeBlock
+  by_cases h0 : s.cur = []
+  · simp [h0, hf]
+  · simp only [h0, if_false]
+    have hA : (if s.bw = 0 then emit s hdr hc else (s, false)).2 = false ∧
+              (if s.bw = 0 then emit s hdr hc else (s, false)).1.w.failed = true := by
+      split
+      · exact emit_failed s hdr hc hf
+      · exact ⟨rfl, hf⟩
+    simp only [hA.1, Bool.false_eq_true, if_false]
+    have hB := emit_failed _ (enc s.cur) bc hA.2
+    simp only [hB.1, Bool.false_eq_true, if_false]
+    exact ⟨trivial, hB.2⟩
+
 /-! ### rotate_output -/
 
 theorem rotate_core (s : St) (exp : Bool) (hc bc kc : Cuts) (r : Resp) (h : Core s)
